@@ -45,6 +45,16 @@ Proof.
   split; [exact B|]. apply (query_safe_sound _ _ B). vm_compute. reflexivity.
 Qed.
 
+(* the helper the skeletons treat as atomic: !checkCounterValidity() holds, with TransMaxInstanceError set,
+   exactly when the counter OR the to-counter exceeds the instances and the warn flag is off (8 cases, table
+   computed from Transformation.cpp) *)
+Theorem C19_check_counter_validity_table :
+  forallb (fun r => let '(c, t, w, retfalse, err) := r in
+                    Bool.eqb retfalse ((c || t) && negb w) && Bool.eqb err ((c || t) && negb w))
+          Gen.ClangDelta.counter_validity_table = true /\
+  List.length Gen.ClangDelta.counter_validity_table = 8.
+Proof. vm_compute. split; reflexivity. Qed.
+
 (* each transformation name is registered once *)
 Theorem C19_registrations_nodup :
   nodup_str (map (fun r => fst (fst r)) Gen.ClangDelta.registrations) = true.
